@@ -16,9 +16,10 @@ CONSTANTS
   DelHi = {1, 4, 9}
   MaxPend = 2
   AllowKF = {}
-  KFInitOpts = TRUE
-  KFV1Hist = TRUE
+  KFInitOpts = FALSE
+  KFV1Hist = FALSE
   MaxOps = 9
+  PreT = {}
   Balanced = FALSE
   EmitMode = "class"
 VIEW View
